@@ -764,7 +764,9 @@ theorem foldl_eraseId_eq_filter (L : List Setting) :
     by_cases h1 : s.id = a.id
     · simp [h1]
     · have h1' : ¬ a.id = s.id := fun e => h1 e.symm
-      simp [h1, h1']
+      have e1 : (s.id == a.id) = false := beq_eq_false_iff_ne.mpr h1
+      have e2 : (a.id == s.id) = false := beq_eq_false_iff_ne.mpr h1'
+      rw [e1, e2]; simp
 
 /-- stopping the listed markers and then everything that is left leaves nothing -/
 theorem stepPoint_closePoint {c : List Setting} (h : (c.map (·.id)).Nodup) (R : List Setting) :
@@ -803,3 +805,350 @@ theorem stepOk_closePoint {c : List Setting} (h : (c.map (·.id)).Nodup) {R : Li
   simp only
   rw [stepOk_append, hr, foldl_eraseId_eq_filter _ h, stepOk_self]
   rfl
+
+/-! ## replay of the new table, as a function -/
+
+theorem stepPoint_nil_add (a : List Setting) : stepPoint [] { add := a } = a := by
+  simp [stepPoint]
+
+theorem runFrom_nil_of_empty (g : Nat → Point) (lo : Nat) :
+    ∀ m, (∀ j, lo ≤ j → j < lo + m → g j = {}) → ∀ c, runFrom g c lo m = c := by
+  intro m
+  induction m generalizing lo with
+  | zero => intros; rfl
+  | succ m ih =>
+    intro h c
+    simp only [runFrom]
+    rw [h lo (Nat.le_refl _) (by omega), stepPoint_empty]
+    exact ih (lo + 1) (fun j h1 h2 => h j (by omega) (by omega)) c
+
+/-- characters of the slice report what the corresponding characters of the original report -/
+theorem activeFn_sliceFn (g : Nat → Point) (aE : List Setting) (st en : Nat) :
+    ∀ k, k < en - st →
+      activeFn (sliceFn g (activeFn g st) aE st en) k = activeFn g (st + k) := by
+  intro k
+  induction k with
+  | zero =>
+    intro _
+    rw [activeFn_zero]
+    simp [sliceFn, stepPoint_nil_add]
+  | succ k ih =>
+    intro hk
+    rw [activeFn_succ, ih (by omega)]
+    have a : ¬ k + 1 = 0 := by omega
+    have e : st + (k + 1) = st + k + 1 := by omega
+    simp only [sliceFn, a, if_false, hk, if_true]
+    rw [e, activeFn_succ]
+
+/-- at the end of the slice everything is stopped -/
+theorem activeFn_sliceFn_end (g : Nat → Point) (st en : Nat) (hse : st < en)
+    (hn : ((activeFn g (en - 1)).map (·.id)).Nodup) :
+    activeFn (sliceFn g (activeFn g st) (activeFn g (en - 1)) st en) (en - st) = [] := by
+  have e : en - st = (en - st - 1) + 1 := by omega
+  rw [e, activeFn_succ, activeFn_sliceFn g _ st en (en - st - 1) (by omega)]
+  have e' : st + (en - st - 1) = en - 1 := by omega
+  rw [e', ← e]
+  have a : ¬ en - st = 0 := by omega
+  have b : ¬ en - st < en - st := by omega
+  simp only [sliceFn, a, b, if_false, if_true]
+  exact stepPoint_closePoint hn _
+
+theorem activeFn_sliceFn_beyond (g : Nat → Point) (st en : Nat) (hse : st < en)
+    (hn : ((activeFn g (en - 1)).map (·.id)).Nodup) :
+    ∀ d, activeFn (sliceFn g (activeFn g st) (activeFn g (en - 1)) st en) (en - st + d) = [] := by
+  intro d
+  induction d with
+  | zero => exact activeFn_sliceFn_end g st en hse hn
+  | succ d ih =>
+    rw [show en - st + (d + 1) = (en - st + d) + 1 by omega, activeFn_succ, ih]
+    have b : ¬ en - st + d + 1 < en - st := by omega
+    have c : ¬ en - st + d + 1 = en - st := by omega
+    simp [sliceFn, b, c, stepPoint_empty]
+
+/-! ## `replayOk` and `Fmts.settings` through the function representation -/
+
+theorem Fmts.toFun_cons_lt {k j : Nat} (p : Point) (rest : Fmts) (h : j < k) :
+    Fmts.toFun ((k, p) :: rest) j = {} := by
+  unfold Fmts.toFun Fmts.getD
+  rw [Fmts.get?_cons_of_gt p rest h]; rfl
+
+theorem Fmts.toFun_cons_self (k : Nat) (p : Point) (rest : Fmts) :
+    Fmts.toFun ((k, p) :: rest) k = p := by
+  unfold Fmts.toFun Fmts.getD
+  rw [Fmts.get?_cons]; simp
+
+theorem Fmts.toFun_cons_gt {k j : Nat} (p : Point) (rest : Fmts) (h : k < j) :
+    Fmts.toFun ((k, p) :: rest) j = Fmts.toFun rest j := by
+  unfold Fmts.toFun
+  exact Fmts.getD_cons_of_lt p rest h
+
+theorem Fmts.toFun_nil (j : Nat) : Fmts.toFun [] j = {} := rfl
+
+theorem stepOk_nil (c : List Setting) : stepOk c [] = true := by
+  cases c <;> rfl
+
+theorem runFrom_cons_head {k lo : Nat} (p : Point) (rest : Fmts) (hlo : lo ≤ k) (cur : List Setting)
+    (m : Nat) :
+    runFrom (Fmts.toFun ((k, p) :: rest)) cur lo (k - lo + (1 + m)) =
+      runFrom (Fmts.toFun rest) (stepPoint cur p) (k + 1) m := by
+  rw [runFrom_add, runFrom_nil_of_empty _ lo (k - lo)
+    (fun j h1 h2 => Fmts.toFun_cons_lt p rest (by omega)) cur]
+  rw [runFrom_add]
+  have e : lo + (k - lo) = k := by omega
+  rw [e]
+  simp only [runFrom, Fmts.toFun_cons_self]
+  apply runFrom_congr
+  intro j h1 h2
+  exact Fmts.toFun_cons_gt p rest (by omega)
+
+theorem replayOkFrom_iff (f : Fmts) (hs : SortedKeys f) :
+    ∀ (lo : Nat), Fmts.LB lo f → ∀ cur : List Setting,
+      (replayOkFrom cur f = true ↔
+        ∀ m, stepOk (runFrom (Fmts.toFun f) cur lo m) (Fmts.toFun f (lo + m)).rem = true) := by
+  induction f with
+  | nil =>
+    intro lo _ cur
+    simp [replayOkFrom, Fmts.toFun_nil, stepOk_nil]
+  | cons kp rest ih =>
+    obtain ⟨k, p⟩ := kp
+    intro lo hlb cur
+    have hk : lo ≤ k := hlb (k, p) (by simp)
+    have hrest := Fmts.sorted_tail hs
+    have hlb' := Fmts.LB_tail_of_sorted hs
+    have IH := ih hrest (k + 1) hlb' (stepPoint cur p)
+    simp only [replayOkFrom, Bool.and_eq_true]
+    constructor
+    · rintro ⟨h1, h2⟩ m
+      by_cases c1 : lo + m < k
+      · rw [Fmts.toFun_cons_lt p rest c1]; exact stepOk_nil _
+      · by_cases c2 : lo + m = k
+        · rw [c2, Fmts.toFun_cons_self]
+          rw [runFrom_nil_of_empty _ lo m (fun j h1 h2 => Fmts.toFun_cons_lt p rest (by omega)) cur]
+          exact h1
+        · have e : m = k - lo + (1 + (m - (k - lo) - 1)) := by omega
+          rw [e, runFrom_cons_head p rest hk, Fmts.toFun_cons_gt p rest (by omega)]
+          have := IH.mp h2 (m - (k - lo) - 1)
+          have e2 : lo + (k - lo + (1 + (m - (k - lo) - 1))) = k + 1 + (m - (k - lo) - 1) := by omega
+          rw [e2]; exact this
+    · intro h
+      constructor
+      · have := h (k - lo)
+        rw [runFrom_nil_of_empty _ lo (k - lo) (fun j h1 h2 => Fmts.toFun_cons_lt p rest (by omega)) cur] at this
+        have e : lo + (k - lo) = k := by omega
+        rw [e, Fmts.toFun_cons_self] at this
+        exact this
+      · apply IH.mpr
+        intro m
+        have := h (k - lo + (1 + m))
+        rw [runFrom_cons_head p rest hk, Fmts.toFun_cons_gt p rest (by omega)] at this
+        have e2 : lo + (k - lo + (1 + m)) = k + 1 + m := by omega
+        rw [e2] at this; exact this
+
+/-- the library's self-check, index by index -/
+theorem replayOk_iff (f : Fmts) (hs : SortedKeys f) :
+    replayOk f = true ↔
+      ∀ k, stepOk (runFrom (Fmts.toFun f) [] 0 k) (Fmts.toFun f k).rem = true := by
+  have := replayOkFrom_iff f hs 0 (fun _ _ => Nat.zero_le _) []
+  simpa [replayOk] using this
+
+theorem settings_iff (f : Fmts) (hs : SortedKeys f) (s : Setting) :
+    s ∈ f.settings ↔ ∃ k, s ∈ (Fmts.toFun f k).add ∨ s ∈ (Fmts.toFun f k).rem := by
+  unfold Fmts.settings
+  rw [List.mem_flatMap]
+  constructor
+  · rintro ⟨⟨k, p⟩, hm, hin⟩
+    refine ⟨k, ?_⟩
+    have : Fmts.toFun f k = p := by
+      unfold Fmts.toFun Fmts.getD
+      rw [Fmts.get?_eq_some_of_mem hs hm]; rfl
+    rw [this]
+    exact List.mem_append.mp hin
+  · rintro ⟨k, hk⟩
+    unfold Fmts.toFun Fmts.getD at hk
+    cases hg : f.get? k with
+    | none => rw [hg] at hk; simp at hk
+    | some p =>
+      rw [hg] at hk
+      exact ⟨(k, p), Fmts.mem_of_get?_eq_some hg, List.mem_append.mpr hk⟩
+
+theorem mem_stepPoint {s : Setting} {c : List Setting} {p : Point} (h : s ∈ stepPoint c p) :
+    s ∈ c ∨ s ∈ p.add := by
+  unfold stepPoint at h
+  rcases List.mem_append.mp h with h | h
+  · left
+    have : ∀ (L : List Setting) (c : List Setting), s ∈ L.foldl (fun c s => eraseId c s.id) c → s ∈ c := by
+      intro L
+      induction L with
+      | nil => intro c h; exact h
+      | cons a L ih =>
+        intro c h
+        have := ih _ h
+        exact List.mem_of_mem_eraseP this
+    exact this _ _ h
+  · exact Or.inr h
+
+theorem mem_runFrom {s : Setting} (g : Nat → Point) :
+    ∀ (m : Nat) (c : List Setting) (lo : Nat), s ∈ runFrom g c lo m → s ∈ c ∨ ∃ k, s ∈ (g k).add := by
+  intro m
+  induction m with
+  | zero => intro c lo h; exact Or.inl h
+  | succ m ih =>
+    intro c lo h
+    rcases ih _ _ h with h | h
+    · rcases mem_stepPoint h with h | h
+      · exact Or.inl h
+      · exact Or.inr ⟨lo, h⟩
+    · exact Or.inr h
+
+theorem mem_activeFn {s : Setting} {g : Nat → Point} {i : Nat} (h : s ∈ activeFn g i) :
+    ∃ k, s ∈ (g k).add := by
+  rcases mem_runFrom g _ _ _ h with h | h
+  · cases h
+  · exact h
+
+/-! ## the slice as a value -/
+
+theorem runFrom_pos (g : Nat → Point) {k : Nat} (h : 0 < k) :
+    runFrom g [] 0 k = activeFn g (k - 1) := by
+  unfold activeFn; rw [Nat.sub_add_cancel h]
+
+theorem getRange_toFun_eq (x : AStr) (hs : SortedKeys x.fmts) {st en : Nat} (hse : st < en)
+    (hen : en ≤ x.len) :
+    Fmts.toFun (x.getRange st en).fmts =
+      sliceFn (Fmts.toFun x.fmts) (activeFn (Fmts.toFun x.fmts) st)
+        (activeFn (Fmts.toFun x.fmts) (en - 1)) st en := by
+  funext j
+  rw [getRange_toFun x hs hse hen, active_eq_activeFn _ hs, active_eq_activeFn _ hs]
+
+theorem getRange_act (x : AStr) (hs : SortedKeys x.fmts) {st en : Nat} (hse : st < en)
+    (hen : en ≤ x.len) {k : Nat} (hk : k < en - st) :
+    act (x.getRange st en) k = act x (st + k) := by
+  unfold act
+  rw [active_eq_activeFn _ (getRange_sorted x hs hse hen), active_eq_activeFn _ hs,
+    getRange_toFun_eq x hs hse hen]
+  exact activeFn_sliceFn _ _ st en k hk
+
+theorem getRange_act_beyond (x : AStr) (hs : SortedKeys x.fmts) {st en : Nat} (hse : st < en)
+    (hen : en ≤ x.len) (hn : ((active x.fmts (en - 1)).map (·.id)).Nodup) {j : Nat}
+    (hj : en - st ≤ j) : act (x.getRange st en) j = [] := by
+  unfold act
+  rw [active_eq_activeFn _ (getRange_sorted x hs hse hen), getRange_toFun_eq x hs hse hen]
+  rw [active_eq_activeFn _ hs] at hn
+  have := activeFn_sliceFn_beyond (Fmts.toFun x.fmts) st en hse hn (j - (en - st))
+  rw [show en - st + (j - (en - st)) = j by omega] at this
+  exact this
+
+theorem getRange_len (x : AStr) {st en : Nat} (hen : en ≤ x.len) :
+    (x.getRange st en).len = en - st := by
+  unfold AStr.len at *
+  rw [getRange_s, pySlice_length]; omega
+
+theorem wf_empty : WF { s := [], fmts := [] } where
+  sorted := by simp [SortedKeys]
+  bound := by simp
+  noAddEnd := by simp
+  ok := rfl
+  nodup := by intro i; simp [active, activeFrom]
+  closed := rfl
+  coherent := by simp [Fmts.settings]
+
+theorem getRange_wf_of_lt (x : AStr) (h : WF x) {st en : Nat} (hse : st < en) (hen : en ≤ x.len) :
+    WF (x.getRange st en) := by
+  have hs := h.sorted
+  have hsy := getRange_sorted x hs hse hen
+  have hlen := getRange_len x (st := st) hen
+  have hf := getRange_toFun_eq x hs hse hen
+  have hnE : ((activeFn (Fmts.toFun x.fmts) (en - 1)).map (·.id)).Nodup := by
+    rw [← active_eq_activeFn _ hs]; exact h.nodup _
+  have hact : ∀ i, active (x.getRange st en).fmts i =
+      if i < en - st then active x.fmts (st + i) else [] := by
+    intro i
+    by_cases hi : i < en - st
+    · simp only [hi, if_true]; exact getRange_act x hs hse hen hi
+    · simp only [hi, if_false]
+      exact getRange_act_beyond x hs hse hen (h.nodup _) (by omega)
+  refine ⟨hsy, ?_, ?_, ?_, ?_, ?_, ?_⟩
+  · intro kp hkp
+    rw [hlen]; exact getRange_keys x hs hse hen kp hkp
+  · intro kp hkp hk
+    obtain ⟨k, p⟩ := kp
+    simp only at hk ⊢
+    rw [hlen] at hk
+    have : Fmts.toFun (x.getRange st en).fmts k = p := by
+      unfold Fmts.toFun Fmts.getD
+      rw [Fmts.get?_eq_some_of_mem hsy hkp]; rfl
+    rw [hf, hk] at this
+    have a : ¬ en - st = 0 := by omega
+    have b : ¬ en - st < en - st := by omega
+    simp only [sliceFn, a, b, if_false, if_true] at this
+    rw [← this]; rfl
+  · rw [replayOk_iff _ hsy, hf]
+    have hx := (replayOk_iff _ hs).mp h.ok
+    intro k
+    by_cases h0 : k = 0
+    · subst h0; simp [sliceFn, stepOk_nil]
+    · have hk0 : 0 < k := by omega
+      by_cases h1 : k < en - st
+      · rw [runFrom_pos _ hk0, activeFn_sliceFn _ _ st en (k - 1) (by omega)]
+        simp only [sliceFn, h0, h1, if_false, if_true]
+        have := hx (st + k)
+        rw [runFrom_pos _ (by omega)] at this
+        rw [show st + (k - 1) = st + k - 1 by omega]
+        exact this
+      · by_cases h2 : k = en - st
+        · subst h2
+          rw [runFrom_pos _ hk0, activeFn_sliceFn _ _ st en (en - st - 1) (by omega)]
+          simp only [sliceFn, h0, h1, if_false, if_true]
+          have hx' := hx en
+          rw [runFrom_pos _ (by omega)] at hx'
+          rw [show st + (en - st - 1) = en - 1 by omega]
+          exact stepOk_closePoint hnE hx'
+        · simp [sliceFn, h0, h1, h2, stepOk_nil]
+  · intro i
+    rw [hact]
+    split
+    · exact h.nodup _
+    · simp
+  · rw [hact, hlen]; simp
+  · have sub : ∀ s ∈ (x.getRange st en).fmts.settings, s ∈ x.fmts.settings := by
+      intro s hsm
+      obtain ⟨k, hk⟩ := (settings_iff _ hsy s).mp hsm
+      rw [hf] at hk
+      have fromAct : ∀ i, s ∈ activeFn (Fmts.toFun x.fmts) i → s ∈ x.fmts.settings := by
+        intro i hi
+        obtain ⟨k', hk'⟩ := mem_activeFn hi
+        exact (settings_iff _ hs s).mpr ⟨k', Or.inl hk'⟩
+      unfold sliceFn at hk
+      by_cases h0 : k = 0
+      · simp only [h0, if_true] at hk
+        rcases hk with hk | hk
+        · exact fromAct _ hk
+        · cases hk
+      · simp only [h0, if_false] at hk
+        by_cases h1 : k < en - st
+        · simp only [h1, if_true] at hk
+          exact (settings_iff _ hs s).mpr ⟨_, hk⟩
+        · simp only [h1, if_false] at hk
+          by_cases h2 : k = en - st
+          · simp only [h2, if_true, closePoint] at hk
+            rcases hk with hk | hk
+            · cases hk
+            · rcases List.mem_append.mp hk with hk | hk
+              · exact (settings_iff _ hs s).mpr ⟨_, Or.inr hk⟩
+              · exact fromAct _ (List.mem_filter.mp hk).1
+          · simp only [h2, if_false] at hk
+            rcases hk with hk | hk <;> cases hk
+    intro s hs' t ht e
+    exact h.coherent s (sub s hs') t (sub t ht) e
+
+theorem getRange_wf_all (x : AStr) (h : WF x) (st : Nat) {en : Nat} (hen : en ≤ x.len) :
+    WF (x.getRange st en) := by
+  by_cases he : pySlice x.s st en = []
+  · rw [getRange_of_empty x he]; exact wf_empty
+  · exact getRange_wf_of_lt x h (pySlice_eq_nil_of_not hen he) hen
+
+/-! ## appending plain text -/
+
+theorem iadd_nil_fmts (a : AStr) (t : Str) :
+    a.iadd { s := t, fmts := [] } = { s := a.s ++ t, fmts := a.fmts } := by
+  simp [AStr.iadd]
